@@ -25,10 +25,11 @@ type Strat struct {
 	// value for every date row (same length as the snapshots), nil if not stated.
 	Cols func(s strategy.Strategy, snaps []*asset.Snapshot) map[string][]float64
 	// Recorded findings (ids listed in /verif/known_findings.json).
-	KFLen     func(cfg []int, n int) string             // C05: number of actions
-	KFRule    func(cfg []int, n, i int) string          // C06: rule at position i
-	KFCol     func(cfg []int, n int, col string) string // C14: column length / content
-	KFOutcome func(cfg []int, n int) string
+	KFLen      func(cfg []int, n int) string             // C05: number of actions / Holds in the warm-up
+	KFHoldOnly bool                                      // the KFLen finding concerns the warm-up Holds only: the count is asserted plainly
+	KFRule     func(cfg []int, n, i int) string          // C06: rule at position i
+	KFCol      func(cfg []int, n int, col string) string // C14: column length / content
+	KFOutcome  func(cfg []int, n int) string
 }
 
 var Strats []*Strat
